@@ -134,6 +134,23 @@ impl Writer {
         }
     }
 
+    // add a float in such a way that it is also recognized as a float if it is read without type information.
+    // This is needed for IF_DATA that is not described by any A2ML: the value 2000.0 would be written as 2000
+    // by add_float, and then be loaded as an integer.
+    pub(crate) fn add_float_with_point<T>(&mut self, value: T, offset: u32)
+    where
+        T: std::convert::Into<f64>,
+    {
+        let value_conv = value.into();
+        let startpos = self.outstring.len();
+        self.add_float(value_conv, offset);
+        if value_conv.is_finite()
+            && !self.outstring[startpos..].contains(['.', 'e'])
+        {
+            self.outstring.push_str(".0");
+        }
+    }
+
     pub(crate) fn add_group(&mut self, mut group: Vec<TaggedItemInfo>) {
         // intially sort the group items by their id / name / etc
         group.sort_by(Self::sort_function);
